@@ -36,7 +36,7 @@ for i in ids:
     })
 na = [{"property_id": i, "reason": na_reason.get(i, "check not built yet in this session (solver-based harness planned, see DESIGN.md section 6); not claimed")} for i in ids if i not in claimed]
 m = {"version": 1, "setup_cmd": "./setup.sh",
-     "hooks": {"guard": "verif", "enable": "harness files under /verif/harness are injected as go/packages overlays with -tags verif (symbolic build) or go test -overlay with -tags verifnative (native replay); /repo carries no hook code", "baseline_off_cmd": "cd /repo && go test -vet=off -count=1 ./...", "source_commits": [], "add_only": True},
+     "hooks": {"guard": "verif", "enable": "harness files under /verif/harness are injected as go/packages overlays with -tags verif (symbolic build) or go test -overlay with -tags verifnative (native replay); /repo carries no hook code", "baseline_off_cmd": "for m in . internal/testify; do (cd /repo/$m && GOFLAGS=-mod=mod go test -vet=off -count=1 ./...); done", "source_commits": [], "add_only": True},
      "engines": [{"name": "symgo", "path": "/verif/engine", "serves_properties": [c["property_id"] for c in checks], "kind_free_text": "forking symbolic executor over go/ssa with SMT-LIB2 back end (z3 -in per worker, cvc5 for floating point), native counterexample replay"}],
      "checks": checks, "not_applicable": na,
      "notes": "exit 0 = every obligation unsat within the registered bounds; exit 1 = replay-confirmed violation not listed in known_findings.jsonl; exit 2 = inconclusive (harness no longer type-checks, unsupported construct, solver unknown, budget exceeded, engine/native mismatch). See DESIGN.md."}
